@@ -355,23 +355,23 @@ def TSD.touch (x : TSD) (t : Time) : TSD × Bool :=
   let x1 := x.prepareDelta t
   (x1, x1.lmt != t)
 
-def TSD.erase (x : TSD) (t : Time) (k : Key) : TSD × Bool :=
-  let r := x.removeKey t k
-  if r.2 then (r.1.markModified t, true)
-  else
-    let tr := r.1.touch t
-    (if tr.2 then tr.1.markModified t else tr.1, false)
-
-def TSD.clear (x : TSD) (t : Time) : TSD :=
-  let ks := liveKeys x.keys.slots
-  let tr := x.touch t
-  let x2 := ks.foldl (fun y k => (y.erase t k).1) tr.1
-  if tr.2 then x2.markModified t else x2
-
+/-- `TSDDataMutationView::touch()`: `touch_impl -> mark_modified`, then the key set is stamped when it was never valid -/
 def TSD.touchOp (x : TSD) (t : Time) : TSD :=
   let tr := x.touch t
   let x1 := if tr.2 then tr.1.markModified t else tr.1
   if x1.keySetLmt == 0 then { x1 with keySetLmt := recMod x1.keySetLmt t } else x1
+
+/-- `TSDDataMutationView::erase`: an absent key is a `touch()` (after fix F9, /repo 8d7f72a: the key set of a dictionary
+    validated by a blind erase is validated with it) -/
+def TSD.erase (x : TSD) (t : Time) (k : Key) : TSD × Bool :=
+  let r := x.removeKey t k
+  if r.2 then (r.1.markModified t, true)
+  else (r.1.touchOp t, false)
+
+/-- `TSDDataMutationView::clear`: `touch()`, then erase every live key (after fix F9) -/
+def TSD.clear (x : TSD) (t : Time) : TSD :=
+  let ks := liveKeys x.keys.slots
+  ks.foldl (fun y k => (y.erase t k).1) (x.touchOp t)
 
 inductive DictOp where
   | set (t : Time) (k : Key) (v : Int)
